@@ -13,11 +13,11 @@
 -/
 import SparseV.Model.Gcxs
 namespace SparseV
+namespace Levels
 
+-- (kept inside this namespace so that the generated instance names cannot collide with another model's)
 deriving instance DecidableEq for DArr
 deriving instance DecidableEq for Except
-
-namespace Levels
 
 inductive LevelFormat where
   | dense | compressed | singleton
